@@ -1124,7 +1124,16 @@ def run_cases(ctx, cases, tmp, workers):
     return results
 
 
+def adapt_to_tree():
+    """the oracle treats 4.2 like the other versions as soon as the library has a 4.2 session class (fixes/C16-fix42.md)"""
+    from nasdaq_protocols import fix
+    if hasattr(fix, 'Fix42Session'):
+        BEGIN_STRING['4.2'] = 'FIX.4.2'
+        SESSION_CLS['4.2'] = 'Fix42Session'
+
+
 def run(ctx):
+    adapt_to_tree()
     rng = ctx.rng
     quick = ctx.tier == 'quick'
     n_clean, n_struct, n_mal, n_42 = (200, 200, 110, 6) if quick else (2400, 2400, 1200, 60)
@@ -1134,6 +1143,14 @@ def run(ctx):
                        'groups and components, any section order with <fields> last), boundary dictionaries (all type names of each version, '
                        'a group name used 12 times, depth-4 nesting, component chains declared in both orders), FIX 4.2 dictionaries (known '
                        'finding), malformed dictionaries (outcome agreement only); distinct = distinct dictionary JSON')
+    ctx.notes += [
+        'ElementTree parsing, chevron rendering and the Python import machinery are on the implementation side of the correspondence only; '
+        'the model is the element tree -> abstract classes -> references followed by name',
+        'Python\'s recursion limit is not modelled (component / group nesting depth of the generated cases stays far below it)',
+        'theorems C16_*_partial carry supportedVersion (4.4, 5.0, 5.0SP2): FIX 4.2 cannot be generated (Witness.C16, known finding C16-fix42)',
+        'the codec/framing clause (C13/C14 instances for generated classes) is checked on the implementation only; the Lean composition '
+        'theorem C16_roundtrip_and_frame is wired by the coordinator once Model/Fix.lean exists',
+    ]
     tmp = tempfile.mkdtemp(prefix='c16-')
     try:
         tables_check(ctx)
@@ -1153,7 +1170,9 @@ def run(ctx):
         for _ in range(n_struct):
             cases.append(('structural', gen_dict(rng, ctx.tier, False), True, []))
         for _ in range(n_42):
-            cases.append(('fix42', gen_dict(rng, ctx.tier, rng.random() < 0.5, '4.2'), True, []))
+            clean = rng.random() < 0.5
+            d = gen_dict(rng, ctx.tier, clean, '4.2')
+            cases.append(('fix42', d, True, make_plans(rng, d, ref_expand(d), ctx.tier) if clean else []))
         for _ in range(n_mal):
             kind, d = gen_malformed(rng, ctx.tier)
             cases.append(('malformed:' + kind, d, False, []))
@@ -1248,6 +1267,17 @@ def shrink_first(ctx, tmp, budget=60):
             if s[0] == 'fields':
                 s[1] = [f for f in s[1] if f[1] in used or f[1] in STD]
         yield c
+        for si, (k, p) in enumerate(dd['sections']):
+            if k == 'fields':
+                for i, f in enumerate(p):
+                    if f[1] not in used:
+                        c = json.loads(json.dumps(dd))
+                        del c['sections'][si][1][i]
+                        yield c
+                    elif f[3]:
+                        c = json.loads(json.dumps(dd))
+                        c['sections'][si][1][i][3] = f[3][:-1]
+                        yield c
 
     progress = True
     while progress and n[0] < budget:
@@ -1265,6 +1295,7 @@ def shrink_first(ctx, tmp, budget=60):
 
 
 def replay(ctx, path):
+    adapt_to_tree()
     r = json.load(open(path))
     rep = r.get('replay') or (r.get('no_longer_checks') or [{}])[-1].get('case') or {}
     ctx.cov['rule'] = 'replay of ' + path
@@ -1281,7 +1312,7 @@ def replay(ctx, path):
             if res.get('loaded'):
                 print('loaded:', json.dumps(res['loaded'])[:1500])
             if ctx.driver.available:
-                print('model:', ctx.driver.ask([f'gen.load {dict_sx(d)}'])[0][:600])
+                print('model:', json.dumps(un_loaded(ctx.driver.ask([f'gen.load {dict_sx(d)}'])[0]))[:1500])
         finally:
             shutil.rmtree(tmp, ignore_errors=True)
     elif rep.get('kind') in ('type-table', 'keywords'):
